@@ -22,7 +22,8 @@ REPO = os.environ.get('VERIF_REPO', '/repo')
 OUT = sys.argv[1] if len(sys.argv) > 1 else os.path.join(os.path.dirname(os.path.abspath(__file__)), '..', 'lean', 'Dasp', 'Gen')
 src_path = os.path.join(REPO, 'dasp_sample/src/ops.rs')
 src = open(src_path).read()
-nc = re.sub(r'//[^\n]*', lambda m: ' ' * len(m.group(0)), src)
+from rustexpr import blank_comments
+nc = blank_comments(src)
 
 errors = []
 consts = {}
